@@ -8,6 +8,7 @@ import (
 	"google.golang.org/grpc/metadata"
 	"google.golang.org/protobuf/proto"
 	"google.golang.org/protobuf/reflect/protoreflect"
+	"google.golang.org/protobuf/types/dynamicpb"
 	"pgregory.net/rapid"
 
 	"github.com/smart-core-os/sc-golang/internal/testproto"
@@ -60,6 +61,16 @@ func TestDefaultName(t *testing.T) {
 			hasName = fd != nil && fd.Kind() == protoreflect.StringKind && !fd.IsList()
 			if hasName {
 				req.ProtoReflect().Set(fd, protoreflect.ValueOfString(rapid.OneOf(rapid.SampledFrom([]string{"", "", "given", "x", " ", "\t", "\n", "  ", " x", "x ", "\x00", "0", "default-name", "\u00a0", "\u200b"}), rapid.StringN(0, 3, 8)).Draw(t, "name")))
+			}
+		}
+		if rapid.IntRange(0, 2).Draw(t, "heldAsDynamic") == 1 {
+			// what a generic proxy or gateway in front of the routers decodes into: one Go type for every message type
+			if b, err := proto.Marshal(req); err == nil {
+				d := dynamicpb.NewMessage(req.ProtoReflect().Descriptor())
+				if proto.Unmarshal(b, d) == nil {
+					req = d
+					lib.Ev.Class("default-name: request held as dynamicpb")
+				}
 			}
 		}
 		def := rapid.SampledFrom([]string{"default-name", "d"}).Draw(t, "default")
